@@ -127,6 +127,12 @@ func ruleGuardedMapReads(r *Run) {
 	}
 	guard := map[mapField]string{}
 	for mf, st := range stats {
+		// fields with a confirmed, frozen guard are decided by the declared-guard rules (R20.41, R20.43);
+		// the DAG's node map in particular is guarded by two locks (writers hold both, readers either),
+		// which an inference of one guard per field cannot express
+		if mf == (mapField{"datastore", "dagT", "nodes"}) {
+			continue
+		}
 		for g, c := range st.guards {
 			if c == st.sites && st.sites >= 2 {
 				guard[mf] = g
